@@ -61,3 +61,30 @@ func generic(prop string, x *vlab.Exec) []vlab.Violation {
 	}
 	return out
 }
+
+// boundFor picks the preemption bound (and the number of shards) for a program of ntasks
+// tasks under concurrency limit conc; -1 means "not in this tier".
+func boundFor(tier string, ntasks, conc int) (bound, shards int) {
+	if tier == "thorough" {
+		switch {
+		case ntasks <= 4 && conc == 0:
+			return 4, 8
+		case ntasks <= 4:
+			return 3, 8
+		case conc == 0:
+			return 3, 16
+		default:
+			return 2, 16
+		}
+	}
+	switch {
+	case ntasks <= 4:
+		return 2, 1
+	case conc == 0 && ntasks <= 5:
+		return 2, 4
+	case conc == 2:
+		return -1, 0
+	default:
+		return 1, 1
+	}
+}
